@@ -25,6 +25,7 @@ def make_seeded_intervals(
     step_factor = 1 - 1 / growth_factor
     max_length = min(max_length, n)
     n_lengths = int(np.ceil(np.log(max_length / min_length) / np.log(growth_factor)))
+    n_lengths = max(1, n_lengths)  # max_length == min_length still gives one length.
     interval_lens = np.unique(np.round(np.geomspace(min_length, max_length, n_lengths)))
     for interval_len in interval_lens:
         step = max(1, np.round(step_factor * interval_len))
